@@ -283,7 +283,7 @@ class Script(object):
         """
         data_length = None
         if isinstance(script, bytes):
-            data_length = len(script) // 2
+            data_length = len(script)
             script = BytesIO(script)
         elif isinstance(script, str):
             data_length = len(script)
